@@ -46,6 +46,57 @@ def all_units(world):
     return _CACHE["u"]
 
 
+# What an internal type number means is a fact about the MySensors serial API (specification data, like the type ranges pinned in
+# props/C05.py): 0 is a battery report, 1 a time request, ... The dispatch finds the handler through the *name* of the enum member
+# with that value, and the leaf specifications are attached to the handler functions - so the table value -> member name is what
+# connects "a battery report updates the node" to the number 0 on the wire.  It is pinned here; every other type number of a table
+# has no handler (the message is yielded as it is).
+INTERNAL_MEANING = {0: "i_battery_level", 1: "i_time", 2: "i_version", 3: "i_id_request", 6: "i_config", 11: "i_sketch_name", 12: "i_sketch_version"}
+INTERNAL_MEANING_2X = {14: "i_gateway_ready", 21: "i_discover_response", 22: "i_heartbeat_response"}
+INTERNAL_MEANING_22 = {32: "i_pre_sleep_notification"}
+VERSION_OF = {"protocol_14": "1.4", "protocol_15": "1.5", "protocol_20": "2.0", "protocol_21": "2.1", "protocol_22": "2.2"}
+
+
+# which property speaks about which meaning: C04 what is recorded (or refused for an unknown node), C05 the version report,
+# C06 what is answered, C07 what wakes a node
+MEANING_OWNER = {
+    "C04": {"i_battery_level", "i_sketch_name", "i_sketch_version", "i_heartbeat_response", "i_discover_response", "i_pre_sleep_notification", "i_id_request"},
+    "C05": {"i_version"},
+    "C06": {"i_time", "i_id_request", "i_config", "i_gateway_ready"},
+    "C07": {"i_heartbeat_response", "i_pre_sleep_notification"},
+}
+
+
+def dispatch_obligations(world, prop):
+    """One structural obligation per version: every internal type number resolves to the handler the serial API's meaning of that
+    number names, and to none otherwise - restricted to the meanings `prop` speaks about (a number that should or does resolve
+    to one of them)."""
+    all_units(world)
+    mine = {"handle_" + m for m in MEANING_OWNER[prop]}
+    out = []
+    for v in handlers_c.VMODS:
+        D = handlers_c.Deriver(world, v)
+        want = dict(INTERNAL_MEANING)
+        if v >= "protocol_20":
+            want.update(INTERNAL_MEANING_2X)
+        if v >= "protocol_22":
+            want.update(INTERNAL_MEANING_22)
+        wrong = {}
+        for val, (hname, hs) in D.arm_specs("Internal").items():
+            got = None if hs.name.endswith("(none)") else hname
+            exp = "handle_" + want[int(val)] if int(val) in want else None
+            if got != exp:
+                wrong[int(val)] = {"resolves_to": got, "documented": exp}
+        for val in want:
+            if val not in {int(x) for x in D.table("Internal")}:
+                wrong[val] = {"resolves_to": "no such type", "documented": "handle_" + want[val]}
+        wrong = {val: d for val, d in wrong.items() if d["resolves_to"] in mine or d["documented"] in mine}
+        out.append({"name": f"{prop}/type-number-means[{handlers_c.VTAG[v]}]/internal", "tag": "property", "status": "sat" if wrong else "unsat", "secs": 0.0,
+                    "backend": "structural", "unit": f"{v}.Internal", "path": [f"{len(want)} documented reactions; differences: {wrong}"],
+                    "model": {"version": VERSION_OF[v], "lines": [f"1;255;3;0;{val};55" for val in sorted(wrong)], "differences": wrong} if wrong else None})
+    return out
+
+
 def build_for(world, prop, every_unit=False):
     units = []
     for name, q, ct, cls, case in all_units(world):
